@@ -67,7 +67,8 @@ pub fn child(opts: &Opts) {
     Some(o) => { let i: usize = o.parse().unwrap(); (i, i + 1, opts.get_usize("upto", addrs.len()).min(addrs.len())) },
     None => (opts.get_usize("from", 0), nsweeps, addrs.len()),
   };
-  let out = std::io::stdout();
+  // the child reports on fd 2 (fd 1 is /dev/null, see main.rs); the parent reads the child's stderr
+  let out = std::io::stderr();
   for i in lo..hi {
     let (ri, kind) = (i / KINDS.len(), KINDS[i % KINDS.len()]);
     { let mut o = out.lock(); writeln!(o, "BEGIN {}", i).unwrap(); o.flush().unwrap(); }
@@ -87,8 +88,8 @@ fn spawn(exe: &std::path::Path, t: u8, r: u8, m: u8, set: &str, seed: u64, extra
   let mut c = Command::new(exe);
   c.arg("c11.child").arg("--type").arg(t.to_string()).arg("--rom").arg(r.to_string()).arg("--ram").arg(m.to_string())
     .arg("--set").arg(set).arg("--seed").arg(seed.to_string()).args(extra).env("RUST_BACKTRACE", "0");
-  let out = c.stdin(Stdio::null()).stderr(Stdio::null()).output().unwrap();
-  let so = String::from_utf8_lossy(&out.stdout).to_string();
+  let out = c.stdin(Stdio::null()).stdout(Stdio::null()).stderr(Stdio::piped()).output().unwrap();
+  let so = String::from_utf8_lossy(&out.stderr).to_string();
   let mut done = Vec::new();
   let mut open: Option<usize> = None;
   for l in so.lines() {
@@ -132,7 +133,12 @@ pub fn run(sub: &str, opts: &Opts, w: &mut dyn Write) {
             let (d, _, _) = spawn(&exe, t, r, m, set, opts.seed, &[String::from("--only"), i.to_string(), String::from("--upto"), mid.to_string()]);
             if d.len() == 1 { lo = mid; } else { hi = mid; }
           }
-          results[i] = Some(format!("died={}:{}:{} dig=0 img=0", hi - 1, addrs[hi - 1], why));
+          let (d0, _, _) = spawn(&exe, t, r, m, set, opts.seed, &[String::from("--only"), i.to_string(), String::from("--upto"), String::from("0")]);
+          if d0.len() == 1 {
+            results[i] = Some(format!("died={}:{}:{} dig=0 img=0", hi - 1, addrs[hi - 1], why));
+          } else {
+            results[i] = Some(format!("died=setup-or-image:0:{} dig=0 img=0", why));
+          }
           from = i + 1;
         },
         None => { from = nsweeps; },
@@ -141,7 +147,7 @@ pub fn run(sub: &str, opts: &Opts, w: &mut dyn Write) {
     for i in 0..nsweeps {
       let (ri, kind) = (i / KINDS.len(), KINDS[i % KINDS.len()]);
       let regs: Vec<String> = REG_PREFIXES[ri].iter().map(|(a, v)| format!("{}:{}", a, v)).collect();
-      writeln!(w, "c11 type={} rom={} ram={} regs={} kind={} set={} seed={} | {}", t, r, m, regs.join(";"), kind, set, opts.seed,
+      writeln!(w, "c11 type={} rom={} ram={} banks={} ramb={} regs={} kind={} set={} seed={} | {}", t, r, m, rom_bank_count(r), header(t, r, m).get_ram_size_bytes(), regs.join(";"), kind, set, opts.seed,
         results[i].clone().unwrap_or_else(|| String::from("died=unknown dig=0 img=0"))).unwrap();
     }
   }}}
